@@ -115,11 +115,19 @@ func HarnessC06NothingRunsAfterReturn() {
 	ticks := 0
 	src := `go func() { for { tick() } }()
 for { }`
-	if verifrt.Bool() {
+	switch verifrt.Choose(4) {
+	case 1:
 		// a goroutine started by a goroutine (three tasks: only fairness-driven switches)
 		src = `go func() { go func() { for { tick() } }(); for { tick() } }()
 for { }`
 		verifrt.SchedBounds(0, 2)
+	case 2:
+		// the started callable is a builtin that runs a script callback
+		src = `go try(func() { for { tick() } })
+for { }`
+	case 3:
+		src = `spawn(try, func() { for { tick() } })
+for { }`
 	}
 	err, ran := c06Eval(ctx, "spawned", src, &ticks)
 	verifrt.Assert(ran, "compiles")
